@@ -143,3 +143,247 @@ Proof.
     rewrite Hc in Cc. cbn in Cc. symmetry in Cc. apply existsb_exists in Cc as (y & Hy & Hxy).
     apply N.eqb_eq in Hxy. subst y. apply in_or_app. right. eauto.
 Qed.
+
+Lemma in_recv_ids r tr : In r (recv_ids tr) -> exists t k, In (ORecv r t k) tr.
+Proof.
+  unfold recv_ids. intros H. apply in_flat_map in H as (o & Ho & Hr).
+  destruct o; cbn in Hr; try contradiction. destruct Hr as [<-|[]]. eauto.
+Qed.
+Lemma in_disp_ids r tr : In r (disp_ids tr) -> exists m, In (ODispatch r m) tr.
+Proof.
+  unfold disp_ids. intros H. apply in_flat_map in H as (o & Ho & Hr).
+  destruct o; cbn in Hr; try contradiction. destruct Hr as [<-|[]]. eauto.
+Qed.
+Lemma in_fin_ids r tr : In r (fin_ids tr) -> exists x, In (OFin r x) tr.
+Proof.
+  unfold fin_ids. intros H. apply in_flat_map in H as (o & Ho & Hr).
+  destruct o; cbn in Hr; try contradiction. destruct Hr as [<-|[]]. eauto.
+Qed.
+
+Lemma NoDup_snoc {A} (l : list A) x : NoDup l -> ~ In x l -> NoDup (l ++ [x]).
+Proof.
+  intros H Hn. apply NoDup_app; repeat split; [exact H| |repeat constructor; intros []%elem_of_nil].
+  intros y Hy Hy2. apply elem_of_list_singleton in Hy2. subst. apply Hn, elem_of_list_In, Hy.
+Qed.
+
+Lemma in_snoc {A} (x y : A) l : In x (l ++ [y]) -> In x l \/ x = y.
+Proof. intros H. apply in_app_or in H as [H|[H|[]]]; auto. Qed.
+
+Lemma stop_count_snoc tr x : stop_count (tr ++ [x]) = (stop_count tr + match x with OStop => 1 | _ => 0 end)%nat.
+Proof. unfold stop_count. rewrite List.filter_app, app_length. destruct x; reflexivity. Qed.
+
+Lemma Hist_recv s tr rid tag k : Hist s tr -> IdsInv s -> rd s = RHold rid tag k ->
+  Hist (set_rd s RIdle) (tr ++ [ORecv rid tag k]).
+Proof.
+  intros [A B C D E F G H I J K] Ii Hr. destruct (hold_lo _ _ _ _ Ii Hr) as [-> Hl].
+  assert (El : lo (set_rd s RIdle) = lo s + 1) by (apply Hl; auto).
+  constructor; rewrite ?El; proj_simpl.
+  - intros x t k0 Hin. apply in_snoc in Hin as [Hin|Hin]; [specialize (A _ _ _ Hin); lia|]. injection Hin as -> _ _. lia.
+  - unfold recv_ids. rewrite flat_map_app. cbn. apply NoDup_snoc; [exact B|].
+    intros Hin. apply in_recv_ids in Hin as (t & k0 & Hin). specialize (A _ _ _ Hin). lia.
+  - intros x m Hin. apply in_snoc in Hin as [Hin|Hin]; [|discriminate].
+    destruct (C x m Hin) as (h & Hh & Hrv). exists h. split; [exact Hh|]. apply in_or_app. now left.
+  - intros x h Hh. destruct (D x h Hh) as (m & Hm). exists m. apply in_or_app. now left.
+  - unfold disp_ids. rewrite flat_map_app. cbn. rewrite app_nil_r. exact E.
+  - intros x r Hin. apply in_snoc in Hin as [Hin|Hin]; [eauto|discriminate].
+  - intros x h r Hh Hs. apply in_or_app. left. eauto.
+  - unfold fin_ids. rewrite flat_map_app. cbn. rewrite app_nil_r. exact H.
+  - intros x h Hh Hc. apply in_or_app. left. eauto.
+  - rewrite J. split; [intros Hin; apply in_or_app; now left|]. intros Hin. apply in_snoc in Hin as [Hin|Hin]; [exact Hin|discriminate].
+  - rewrite stop_count_snoc. rewrite <- K. lia.
+Qed.
+
+Lemma Hist_dispatch s tr rid tag m c : Hist s tr -> hs s !! rid = None -> In (ORecv rid tag (KReq m)) tr ->
+  Hist (set_hs s (<[rid := {| h_tag := tag; h_st := HRun; h_canc := c |}]> (hs s)))
+       (tr ++ ODispatch rid m :: (if c then [OCancel rid] else [])).
+Proof.
+  intros [A B C D E F G H I J K] Hn Hrv.
+  assert (Hs : forall x, In x (tr ++ ODispatch rid m :: (if c then [OCancel rid] else [])) ->
+               In x tr \/ x = ODispatch rid m \/ (c = true /\ x = OCancel rid)).
+  { intros x Hin. apply in_app_or in Hin as [Hin|[Hin|Hin]]; auto. destruct c; [|destruct Hin].
+    destruct Hin as [<-|[]]. auto. }
+  constructor; unfold lo, pending_ids in *; proj_simpl.
+  - intros x t k Hin. apply Hs in Hin as [Hin|[Hin|[_ Hin]]]; [eauto|discriminate|discriminate].
+  - unfold recv_ids. rewrite flat_map_app. cbn. destruct c; cbn; rewrite app_nil_r; exact B.
+  - intros x m0 Hin. apply Hs in Hin as [Hin|[Hin|[_ Hin]]]; [| |discriminate].
+    + destruct (C x m0 Hin) as (h & Hh & Hr). exists h. split; [|apply in_or_app; now left].
+      rewrite lookup_insert_ne; [exact Hh|congruence].
+    + injection Hin as -> ->. eexists. rewrite lookup_insert. split; [reflexivity|]. cbn. apply in_or_app. now left.
+  - intros x h Hx. apply lookup_insert_Some in Hx as [[<- _]|[_ Hx]].
+    + exists m. apply in_or_app. right. now left.
+    + destruct (D x h Hx) as (m0 & Hm). exists m0. apply in_or_app. now left.
+  - unfold disp_ids. rewrite flat_map_app. cbn.
+    assert (E2 : flat_map (fun o => match o with ODispatch r _ => [r] | _ => [] end) (if c then [OCancel rid] else []) = [])
+      by (destruct c; reflexivity).
+    rewrite E2. apply NoDup_snoc; [exact E|]. intros Hin. apply in_disp_ids in Hin as (m0 & Hin).
+    destruct (C rid m0 Hin) as (h & Hh & _). congruence.
+  - intros x r Hin. apply Hs in Hin as [Hin|[Hin|[_ Hin]]]; [|discriminate|discriminate].
+    destruct (F x r Hin) as (h & Hh & Hst). exists h. split; [|exact Hst].
+    rewrite lookup_insert_ne; [exact Hh|congruence].
+  - intros x h r Hx Hst. apply lookup_insert_Some in Hx as [[<- <-]|[_ Hx]]; [discriminate|].
+    apply in_or_app. left. eauto.
+  - unfold fin_ids. rewrite flat_map_app. cbn. destruct c; cbn; rewrite app_nil_r; exact H.
+  - intros x h Hx Hc. apply lookup_insert_Some in Hx as [[<- <-]|[_ Hx]].
+    + cbn in Hc. subst c. apply in_or_app. right. right. now left.
+    + apply in_or_app. left. eauto.
+  - rewrite J. split; [intros Hin; apply in_or_app; now left|]. intros Hin.
+    apply Hs in Hin as [Hin|[Hin|[_ Hin]]]; [exact Hin|discriminate|discriminate].
+  - rewrite <- K. f_equal. unfold stop_count. rewrite List.filter_app, app_length. destruct c; cbn; lia.
+Qed.
+
+Lemma Hist_finish s tr rid h r : Hist s tr -> hs s !! rid = Some h -> h_st h = HRun ->
+  Hist (set_hs s (<[rid := {| h_tag := h_tag h; h_st := HFin r; h_canc := h_canc h |}]> (hs s))) (tr ++ [OFin rid r]).
+Proof.
+  intros [A B C D E F G H I J K] Hr Hst.
+  constructor; unfold lo, pending_ids in *; proj_simpl.
+  - intros x t k Hin. apply in_snoc in Hin as [Hin|Hin]; [eauto|discriminate].
+  - unfold recv_ids. rewrite flat_map_app. cbn. rewrite app_nil_r. exact B.
+  - intros x m Hin. apply in_snoc in Hin as [Hin|Hin]; [|discriminate].
+    destruct (C x m Hin) as (h0 & Hh0 & Hrv). destruct (N.eq_dec x rid) as [->|Hne].
+    + rewrite Hr in Hh0. injection Hh0 as <-. eexists. rewrite lookup_insert. split; [reflexivity|]. apply in_or_app. now left.
+    + exists h0. rewrite lookup_insert_ne by congruence. split; [exact Hh0|apply in_or_app; now left].
+  - intros x h0 Hx. apply lookup_insert_Some in Hx as [[<- _]|[_ Hx]].
+    + destruct (D rid h Hr) as (m & Hm). exists m. apply in_or_app. now left.
+    + destruct (D x h0 Hx) as (m & Hm). exists m. apply in_or_app. now left.
+  - unfold disp_ids. rewrite flat_map_app. cbn. rewrite app_nil_r. exact E.
+  - intros x r0 Hin. apply in_snoc in Hin as [Hin|Hin].
+    + destruct (F x r0 Hin) as (h0 & Hh0 & Hs). destruct (N.eq_dec x rid) as [->|Hne].
+      * rewrite Hr in Hh0. injection Hh0 as <-. rewrite Hst in Hs. destruct Hs; discriminate.
+      * exists h0. rewrite lookup_insert_ne by congruence. auto.
+    + injection Hin as -> ->. eexists. rewrite lookup_insert. split; [reflexivity|]. now left.
+  - intros x h0 r0 Hx Hs. apply lookup_insert_Some in Hx as [[<- <-]|[_ Hx]].
+    + cbn in Hs. injection Hs as ->. apply in_or_app. right. now left.
+    + apply in_or_app. left. eauto.
+  - unfold fin_ids. rewrite flat_map_app. cbn. apply NoDup_snoc; [exact H|].
+    intros Hin. apply in_fin_ids in Hin as (r0 & Hin). destruct (F rid r0 Hin) as (h0 & Hh0 & Hs).
+    rewrite Hr in Hh0. injection Hh0 as <-. rewrite Hst in Hs. destruct Hs; discriminate.
+  - intros x h0 Hx Hc. apply lookup_insert_Some in Hx as [[<- <-]|[_ Hx]]; apply in_or_app; left; eauto.
+  - rewrite J. split; [intros Hin; apply in_or_app; now left|]. intros Hin. apply in_snoc in Hin as [Hin|Hin]; [exact Hin|discriminate].
+  - rewrite stop_count_snoc. rewrite <- K. lia.
+Qed.
+
+Lemma Hist_return s tr : Hist s tr -> Hist (set_pc s PReturned) (tr ++ [OReturn]).
+Proof.
+  intros [A B C D E F G H I J K].
+  constructor; unfold lo, pending_ids in *; proj_simpl.
+  - intros x t k Hin. apply in_snoc in Hin as [Hin|Hin]; [eauto|discriminate].
+  - unfold recv_ids. rewrite flat_map_app. cbn. rewrite app_nil_r. exact B.
+  - intros x m Hin. apply in_snoc in Hin as [Hin|Hin]; [|discriminate].
+    destruct (C x m Hin) as (h & Hh & Hr). exists h. split; [exact Hh|]. apply in_or_app. now left.
+  - intros x h Hh. destruct (D x h Hh) as (m & Hm). exists m. apply in_or_app. now left.
+  - unfold disp_ids. rewrite flat_map_app. cbn. rewrite app_nil_r. exact E.
+  - intros x r Hin. apply in_snoc in Hin as [Hin|Hin]; [eauto|discriminate].
+  - intros x h r Hh Hs. apply in_or_app. left. eauto.
+  - unfold fin_ids. rewrite flat_map_app. cbn. rewrite app_nil_r. exact H.
+  - intros x h Hh Hc. apply in_or_app. left. eauto.
+  - split; [intros _; apply in_or_app; right; now left|reflexivity].
+  - rewrite stop_count_snoc. rewrite <- K. lia.
+Qed.
+
+Lemma Hist_stop s tr : Hist s tr -> stops s = 0 -> Hist (set_stops s 1) (tr ++ [OStop]).
+Proof.
+  intros [A B C D E F G H I J K] Hs0.
+  constructor; unfold lo, pending_ids in *; proj_simpl.
+  - intros x t k Hin. apply in_snoc in Hin as [Hin|Hin]; [eauto|discriminate].
+  - unfold recv_ids. rewrite flat_map_app. cbn. rewrite app_nil_r. exact B.
+  - intros x m Hin. apply in_snoc in Hin as [Hin|Hin]; [|discriminate].
+    destruct (C x m Hin) as (h & Hh & Hr). exists h. split; [exact Hh|]. apply in_or_app. now left.
+  - intros x h Hh. destruct (D x h Hh) as (m & Hm). exists m. apply in_or_app. now left.
+  - unfold disp_ids. rewrite flat_map_app. cbn. rewrite app_nil_r. exact E.
+  - intros x r Hin. apply in_snoc in Hin as [Hin|Hin]; [eauto|discriminate].
+  - intros x h r Hh Hs. apply in_or_app. left. eauto.
+  - unfold fin_ids. rewrite flat_map_app. cbn. rewrite app_nil_r. exact H.
+  - intros x h Hh Hc. apply in_or_app. left. eauto.
+  - rewrite J. split; [intros Hin; apply in_or_app; now left|]. intros Hin. apply in_snoc in Hin as [Hin|Hin]; [exact Hin|discriminate].
+  - rewrite stop_count_snoc. rewrite Hs0 in K. lia.
+Qed.
+
+Ltac lo_eq := unfold lo, pending_ids; proj_simpl; reflexivity.
+Ltac hmono X := eapply (Hist_mono X); [|reflexivity|proj_simpl; tauto|reflexivity|].
+
+Lemma fresh_rid s rid tag k : SInv s -> rd s = RHold rid tag k -> hs s !! rid = None.
+Proof.
+  intros [Ii Ic _] Hr. destruct (hold_lo _ _ _ _ Ii Hr) as [-> _].
+  destruct (hs s !! lo s) eqn:Hx; [|reflexivity].
+  assert (lo s < lo s) by (apply (c_hs_lo _ Ic); eauto). lia.
+Qed.
+
+Lemma step_Hist s tr e s' o : SInv s -> Hist s tr -> step R s e = Some (s', o) -> Hist s' (tr ++ o).
+Proof.
+  intros Is I H. pose proof Is as [Iids Ic Il].
+  destruct (step_ids _ _ _ _ Iids H) as [_ Hlo].
+  assert (Hle : lo s <= lo s') by (destruct Hlo as [->|[-> _]]; lia). clear Hlo.
+  destruct e; step_inv H; proj_simpl; rewrite ?app_nil_r.
+  - (* ESend *) hmono s; [exact I|exact Hle].
+  - (* EConnErr *) hmono s; [exact I|exact Hle].
+  - (* EFinish *) eapply Hist_finish; eauto.
+  - (* EWriteOk *) hmono s; [|exact Hle]. apply Hist_inert; [exact I|]. repeat constructor.
+  - (* EWriteFail *) hmono s; [|exact Hle]. apply Hist_inert; [exact I|]. repeat constructor.
+  - (* ECtxCancel *)
+    pose proof (cancel_list_rel _ _ _ _ Heqp) as Rl. pose proof (cancel_list_out _ _ _ _ Heqp) as [_ Out]. proj_simpl.
+    rewrite (cancel_list_frame _ _ _ _ Heqp).
+    eapply Hist_cancel; [| exact Rl | exact (cancel_list_inert _ _ _ _ Heqp) | exact Out].
+    hmono s; [exact I|]. assert (E : lo (set_ctxd s true) = lo s) by lo_eq. lia.
+  - (* EReaderGet *) hmono s; [exact I|exact Hle].
+  - (* EReaderFail *) hmono s; [exact I|exact Hle].
+  - (* EReaderQuit *) hmono s; [exact I|exact Hle].
+  - (* EArrive dup *)
+    apply Hist_set_pc; proj_simpl; [|congruence|discriminate]. eapply Hist_recv; eauto.
+  - (* EArrive dispatch *)
+    change (tr ++ ORecv rid tag (KReq m) :: ODispatch rid m :: [OCancel rid])
+      with (tr ++ [ORecv rid tag (KReq m)] ++ ODispatch rid m :: (if true then [OCancel rid] else [])).
+    rewrite app_assoc.
+    apply (Hist_dispatch (set_tags (set_rd s RIdle) (<[tag:=rid]> (tags s)))); proj_simpl.
+    + hmono (set_rd s RIdle); [eapply Hist_recv; eauto|]. assert (E : lo (set_tags (set_rd s RIdle) (<[tag:=rid]> (tags s))) = lo (set_rd s RIdle)) by lo_eq. lia.
+    + eapply fresh_rid; eauto.
+    + apply in_or_app. right. now left.
+  - change (tr ++ ORecv rid tag (KReq m) :: ODispatch rid m :: [])
+      with (tr ++ [ORecv rid tag (KReq m)] ++ ODispatch rid m :: (if false then [OCancel rid] else [])).
+    rewrite app_assoc.
+    apply (Hist_dispatch (set_tags (set_rd s RIdle) (<[tag:=rid]> (tags s)))); proj_simpl.
+    + hmono (set_rd s RIdle); [eapply Hist_recv; eauto|]. assert (E : lo (set_tags (set_rd s RIdle) (<[tag:=rid]> (tags s))) = lo (set_rd s RIdle)) by lo_eq. lia.
+    + eapply fresh_rid; eauto.
+    + apply in_or_app. right. now left.
+  - (* flush of an outstanding tag *)
+    pose proof (cancel_rid_rel _ _ _ _ Heqp0) as Rl. pose proof (cancel_rid_out _ _ _ _ Heqp0) as [_ Out]. proj_simpl.
+    rewrite (cancel_rid_frame _ _ _ _ Heqp0).
+    change (tr ++ ORecv rid tag (KFlush old) :: l) with (tr ++ [ORecv rid tag (KFlush old)] ++ l). rewrite app_assoc.
+    apply Hist_set_pc; proj_simpl; [|congruence|discriminate].
+    eapply Hist_cancel; [| exact Rl | exact (cancel_rid_inert _ _ _ _ Heqp0) |].
+    + hmono (set_rd s RIdle); [eapply Hist_recv; eauto|].
+      assert (E : lo (set_tags (set_rd s RIdle) (delete old (tags s))) = lo (set_rd s RIdle)) by lo_eq. lia.
+    + intros r h [<-|[]] Hh Hc. proj_simpl. eauto.
+  - (* flush of an unknown tag *)
+    apply Hist_set_pc; proj_simpl; [|congruence|discriminate]. eapply Hist_recv; eauto.
+  - (* EComplete *)
+    apply Hist_set_pc; proj_simpl; [|congruence|discriminate]. apply Hist_gone; [exact I|exact Heqo0|congruence].
+  - apply Hist_gone; [exact I|exact Heqo0|congruence].
+  - apply Hist_gone; [exact I|exact Heqo0|congruence].
+  - (* EGiveUp *) apply Hist_gone; [exact I|exact Heqo0|congruence].
+  - (* ETake *)
+    hmono (set_pc s Main); [|assert (E : lo (set_pc s Main) = lo s) by lo_eq; unfold lo, pending_ids in *; proj_simpl; lia].
+    apply Hist_set_pc; [|congruence|discriminate]. apply Hist_inert; [exact I|repeat constructor].
+  - hmono (set_pc s Main); [|unfold lo, pending_ids in *; proj_simpl; lia].
+    apply Hist_set_pc; [|congruence|discriminate]. apply Hist_inert; [exact I|repeat constructor].
+  - hmono (set_pc s Main); [|unfold lo, pending_ids in *; proj_simpl; lia].
+    apply Hist_set_pc; [|congruence|discriminate]. apply Hist_inert; [exact I|repeat constructor].
+  - hmono (set_pc s Main); [|unfold lo, pending_ids in *; proj_simpl; lia].
+    apply Hist_set_pc; [|congruence|discriminate]. apply Hist_inert; [exact I|repeat constructor].
+  - (* EDropDone *)
+    hmono (set_pc s Main); [|unfold lo, pending_ids in *; proj_simpl; lia].
+    apply Hist_set_pc; [exact I|congruence|discriminate].
+  - (* EWriterQuit *) hmono s; [exact I|exact Hle].
+  - (* EReturn *)
+    pose proof (cancel_list_rel _ _ _ _ Heqp) as Rl. pose proof (cancel_list_out _ _ _ _ Heqp) as [_ Out]. proj_simpl.
+    rewrite (cancel_list_frame _ _ _ _ Heqp). rewrite app_assoc.
+    change (set_hs (set_pc s PReturned) (hs s0)) with (set_pc (set_hs s (hs s0)) PReturned).
+    apply Hist_return. eapply Hist_cancel; [exact I| exact Rl | exact (cancel_list_inert _ _ _ _ Heqp) | exact Out].
+  - (* EStop *)
+    apply andb_prop in Heqb as [Hs0 _]. apply N.eqb_eq in Hs0. apply Hist_stop; assumption.
+Qed.
+
+Lemma reach_Hist s tr : reach s tr -> Hist s tr.
+Proof.
+  induction 1 as [|s tr e s' o Hr IH Hs]; [apply Hist_init|].
+  eapply step_Hist; eauto. eapply reach_SInv; eauto.
+Qed.
